@@ -23,10 +23,14 @@ All lines use the binding p=http://p; q is not bound.
 Streams: (i) vlib/xpcgen.py trees x {minimal, redundant parentheses, white space};  (ii) the frozen malformed corpora
 corpus/C02/malformed_*.lst;  (iii) corpus/C02c/boundary.lst + the nesting-depth strings around eMaximumNestingDepth.
 
-DEVIATIONS lists the classes of strings on which the library and the Recommendation's grammar disagree on the
-unchanged tree (the model agrees with the library on them).  A class whose key is a `finding:` line of property C02
-(props/C02.findings.txt / KNOWN_FINDINGS.txt) prints KNOWN-FINDING; a class that is not (yet) recorded there is counted
-(evidence: xpc_unrecorded_deviations) and, with UNRECORDED_IS_VIOLATION, reported as a violation.
+DEVIATIONS lists the three recorded classes of strings on which the unrepaired library and the Recommendation's grammar
+disagree (findings K-xpc-name-chars, K-xpc-dot-glue, K-xpc-unicode-digit; corpus/C02c/k_xpc_*.txt).  translator/gen_xpc.py
+reads from the source whether each one is repaired (facts fix_name_chars / fix_dot_token / fix_ascii_digit): while a class
+is NOT repaired its strings are expected deviations (counted; KNOWN-FINDING when the key is a `finding:` line of property
+C02, else evidence xpc_unrecorded_deviations, a violation with UNRECORDED_IS_VIOLATION); once the source says repaired the
+class is judged like everything else (still compiled -> xpc-accepts-non-expression, still refused -> xpc-rejects-expression)
+and stream (i) glues '.'/'..' to a following operator again.  The regression files k_xpc_*.txt (JSON string lines) run on
+both sides every time.
 is_expression() wraps vlib/xpsyntax.py: ExprWhitespace is exactly #x20 #x9 #xD #xA (xpsyntax uses \\s), and strings with
 non-ASCII characters whose name class depends on the XML 1.0 edition are not judged (xpsyntax has the fifth edition's
 ranges, XalanXMLChar the tables of the second..fourth)."""
@@ -241,6 +245,11 @@ def _outside_literals(s, fn, keep_literals=True):
 # Digit, CombiningChar, Extender: what XPath 1.0 cites and XalanXMLChar implements) and in the ranges of the fifth
 # edition (what vlib/xpsyntax.py uses): a string with another non-ASCII character outside its literals is not judged
 SAME_IN_ALL_EDITIONS = set("\u00e9\u4e2d\u00b7\u0300\u00d7\u00f7\u3007\u00a0\u3000\u2028\u0085\ufffe\uffff\U00010000")
+# the non-ASCII members of the XML 1.0 (second..fourth edition) class Digit: name characters that cannot start a name; XPath's
+# Digits is [0-9]+, so they are not part of a Number either.  (The fifth edition lets them start a name; the reading used here is
+# the one XPath 1.0 cites and XalanXMLChar / XalanQName::isValidNCName implement.)
+XML_DIGITS = set(chr(b + i) for b in (0x0660, 0x06f0, 0x0966, 0x09e6, 0x0a66, 0x0ae6, 0x0b66, 0x0c66, 0x0ce6, 0x0d66, 0x0e50, 0x0ed0, 0x0f20)
+                 for i in range(10)) | set(chr(c) for c in range(0x0be7, 0x0bf0))
 XPATH_WS = " \t\r\n"
 LIB_DELIMS = "@()[]|/*+=,\\^!$<>-"
 _NAME_CHAR = re.compile(xpsyntax.NCNAME_CHAR)
@@ -249,16 +258,19 @@ _NAME_CHAR = re.compile(xpsyntax.NCNAME_CHAR)
 def is_expression(s):
     """True / False by the Recommendation's grammar; None = not judged (XML-edition dependent characters).
     vlib/xpsyntax.py skips white space with \\s, which also takes VT, FF, FS..US, NEL, NBSP ... : ExprWhitespace is
-    S = (#x20 | #x9 | #xD | #xA)+ only, so such a character outside a literal makes the string a non-expression."""
+    S = (#x20 | #x9 | #xD | #xA)+ only, so such a character outside a literal makes the string a non-expression.
+    Non-ASCII XML Digits (U+0661 ...) are name characters only: not in a Number, not at the start of a name."""
     out = _outside_literals(s, lambda t: t, keep_literals=False)
     if out is None:
         return False
     for c in out:
-        if ord(c) > 0x7f and c not in SAME_IN_ALL_EDITIONS and not (0xd800 <= ord(c) <= 0xdfff):
+        if ord(c) > 0x7f and c not in SAME_IN_ALL_EDITIONS and c not in XML_DIGITS and not (0xd800 <= ord(c) <= 0xdfff):
             return None
         if (c.isspace() or ord(c) < 0x20 or ord(c) == 0x7f) and c not in XPATH_WS:
             return False
-    return xpsyntax.recognise(s)
+    # xpsyntax reads numbers with \\d and names with the fifth edition's ranges: a non-ASCII Digit is put to it as U+00B7
+    # (Extender: a name character that cannot start a name and is no digit - the same class)
+    return xpsyntax.recognise(_outside_literals(s, lambda t: "".join("\u00b7" if c in XML_DIGITS else c for c in t)))
 
 
 def _norm_name_chars(s):
@@ -276,22 +288,51 @@ def _norm_dot_glue(s):
     return _outside_literals(s, lambda t: _DOT_GLUE.sub(lambda m: m.group(1) + m.group(2) + " ", t))
 
 
-# (key, direction, normaliser).  'accepts': the library compiles a string that is not an expression; the class is decided
-# by undoing exactly that leniency and asking the recogniser again.  'rejects': the library refuses an expression; the
-# class is decided by undoing the deviation and asking the LIBRARY again (it must compile the normalised string).
+def _norm_unicode_digit(s):
+    """undo 'every XML Digit counts as a digit of a Number': the non-ASCII ones become 1"""
+    return _outside_literals(s, lambda t: "".join("1" if c in XML_DIGITS else c for c in t))
+
+
+# (key, direction, normaliser, repair flag of translator/gen_xpc.py).  'accepts': the library compiles a string that is not an
+# expression; the class is decided by undoing exactly that leniency and asking the recogniser again.  'rejects': the library
+# refuses an expression; the class is decided by undoing the deviation and asking the LIBRARY again (it must compile the
+# normalised string).  A class is an EXPECTED deviation only while its flag says that the source is not repaired.
 DEVIATIONS = [
     # XPathProcessorImpl::NodeTest: an unprefixed name is checked with isNodeTest(), which looks at the first character
     # only; tokenize() ends a name only at white space, a quote or one of its delimiters: 'a#b', 'a?', 'a{' are element names
-    ("K-xpc-name-chars", "accepts", _norm_name_chars),
+    ("K-xpc-name-chars", "accepts", _norm_name_chars, "fix_name_chars"),
+    # tokenize() / PrimaryExpr(): XalanXMLChar::isDigit where the grammar says [0-9]: U+0661, '1' U+0661 are Numbers (NaN)
+    ("K-xpc-unicode-digit", "accepts", _norm_unicode_digit, "fix_ascii_digit"),
     # XPathProcessorImpl::tokenize: '.' / '..' not followed by a digit start an ordinary token that runs on through
     # letters and '-': '.div 2', '.-5', '..-1' are single tokens '.div', '.-5', '..-1' (3.7: longest token is '.', '..')
-    ("K-xpc-dot-glue", "rejects", _norm_dot_glue),
+    ("K-xpc-dot-glue", "rejects", _norm_dot_glue, "fix_dot_token"),
 ]
+FLAGS = ("fix_name_chars", "fix_dot_token", "fix_ascii_digit")
 
 
-def classify(s, direction):
-    for key, d, norm in DEVIATIONS:
-        if d != direction:
+def repair_flags(facts):
+    """the three bools of translator/gen_xpc.py's facts (is the leniency repaired in the source the library is built from);
+    fallback: gen_xpc_fix_* of coq/GenXpc.v; absent = not repaired"""
+    f = ((facts or {}).get("GenXpc") or {}).get("facts") or {}
+    out = {}
+    txt = None
+    for k in FLAGS:
+        if k in f:
+            out[k] = bool(f[k])
+            continue
+        if txt is None:
+            try:
+                txt = open(os.path.join(core.COQ, "GenXpc.v")).read()
+            except OSError:
+                txt = ""
+        m = re.search(r"Definition\s+gen_xpc_%s\s*(?::\s*bool\s*)?:=\s*(true|false)\s*\." % k, txt)
+        out[k] = bool(m) and m.group(1) == "true"
+    return out
+
+
+def classify(s, direction, flags):
+    for key, d, norm, flag in DEVIATIONS:
+        if d != direction or flags.get(flag):
             continue
         t = norm(s)
         if t is not None and t != s and is_expression(t):
@@ -326,7 +367,7 @@ def correspondence(ctx, acc, cases, mres, hres):
             acc.corr.append((s, m, h))
 
 
-def accept_oracle(ctx, acc, stream, cases, hres, impl):
+def accept_oracle(ctx, acc, stream, cases, hres, impl, flags):
     """streams (ii)/(iii): the library accepts exactly the expressions"""
     pending = []
     for cid, s in cases:
@@ -339,7 +380,7 @@ def accept_oracle(ctx, acc, stream, cases, hres, impl):
             add_viol(acc, "xpc-crash", "# no answer from the library (%s) for %s\n%s" % (v, show_str(s), case_line(cid, s)))
             continue
         if v == "ok" and is_expr is False:
-            key, t = classify(s, "accepts")
+            key, t = classify(s, "accepts", flags)
             if key:
                 acc.dev.setdefault(key, []).append(s)
             else:
@@ -348,7 +389,7 @@ def accept_oracle(ctx, acc, stream, cases, hres, impl):
         elif v == "err" and is_expr and not semantically_clean(s):
             ctx.count("xpc:%s:expression-refused(unbound prefix, unknown function or argument count)" % stream)
         elif v == "err" and is_expr:
-            key, t = classify(s, "rejects")
+            key, t = classify(s, "rejects", flags)
             if key:
                 pending.append((cid, s, key, t, h))
             else:
@@ -512,6 +553,7 @@ def run_part(ctx):
     old_gen = ctx.notes.get("gen")
     if os.path.exists(os.path.join(core.COQ, "Properties_C02c.v")):
         proved = ctx.prove(["Properties_C02c.v"], ["GenXpc"])
+        facts = core.coq_prepare(["GenXpc"])       # prove() keeps the facts to itself; the generation is idempotent
     else:
         ctx.notes["xpc_proof"] = "coq/Properties_C02c.v is not there: no theorem of the compiler part was checked in this run"
         facts = core.coq_prepare(["GenXpc"])
@@ -524,6 +566,11 @@ def run_part(ctx):
         merged = dict(old_gen)
         merged.update(ctx.notes.get("gen") or {})
         ctx.notes["gen"] = merged
+    # is each of the three recorded leniencies repaired in the source the library is built from (read from the source by the
+    # translator): an unrepaired one is an expected deviation, a repaired one is judged like everything else
+    flags = repair_flags(facts)
+    ctx.notes["xpc_repair_flags"] = flags
+    xpcgen.DOT_NEEDS_SPACE = not flags["fix_dot_token"]
     model, ok_m, mlog = core.build_model("xpc")
     if not ok_m:
         ctx.broken.append("xpc: model extraction/build failed: " + mlog[-500:])
@@ -546,7 +593,22 @@ def run_part(ctx):
     hres = run_cases(impl, bcases)
     mres = run_cases(model, bcases) if model else None
     correspondence(ctx, acc, bcases, mres, hres)
-    accept_oracle(ctx, acc, "boundary", bcases, hres, impl)
+    accept_oracle(ctx, acc, "boundary", bcases, hres, impl, flags)
+    # the regression files of the three findings (corpus/C02c/k_xpc_*.txt): the same judgement; with the repair in the source the
+    # library must accept exactly the expressions among them, without it the strings of the class are the expected deviations
+    n_regr = 0
+    for key in sorted(xpcgen.REGRESSION_FILES):
+        fn_ = xpcgen.REGRESSION_FILES[key]
+        strs = xpcgen.load_strings(fn_)
+        if not strs:
+            ctx.broken.append("xpc: corpus/C02c/%s is missing or has no strings" % fn_)
+            continue
+        rcases = [("k%d_%d" % (n_regr, i), s) for i, s in enumerate(strs)]
+        n_regr += len(rcases)
+        rh = run_cases(impl, rcases)
+        rm = run_cases(model, rcases) if model else None
+        correspondence(ctx, acc, rcases, rm, rh)
+        accept_oracle(ctx, acc, "regression(%s)" % key, rcases, rh, impl, flags)
     # nesting depth: the limit is the library's own (the Recommendation has none): correspondence, and the answer must
     # change from ok to err exactly where the depth passes MAX_NESTING for the two pure shapes
     deep = xpcgen.deep_strings()
@@ -567,7 +629,7 @@ def run_part(ctx):
     hres = run_cases(impl, mcases)
     mres = run_cases(model, mcases) if model else None
     correspondence(ctx, acc, mcases, mres, hres)
-    accept_oracle(ctx, acc, "malformed", mcases, hres, impl)
+    accept_oracle(ctx, acc, "malformed", mcases, hres, impl, flags)
 
     # --- stream (i): generated trees
     n = N_THOROUGH if ctx.thorough else N_QUICK
@@ -627,7 +689,7 @@ def run_part(ctx):
         ctx.violation(tag, "# C02 (compiler part): %s\n# %d cases; replay: .build/xpc_plain < this file (case lines: <id> <ns> <hex UTF-16 expression>)%s\n%s" % (
             head, len(texts), "; xpc-value: python3 check.py C02 --replay <this file>" if tag == "xpc-value" else "", "\n".join(texts[:40])))
     ctx.cov["distinct_nontrivial"] = ctx.cov.get("distinct_nontrivial", 0) + len(acc.distinct)
-    ctx.notes["xpc_counts"] = {"boundary": len(bcases), "depth": len(dcases), "malformed": len(mcases), "generated_trees": len(items),
+    ctx.notes["xpc_counts"] = {"boundary": len(bcases), "regression_files": n_regr, "depth": len(dcases), "malformed": len(mcases), "generated_trees": len(items),
                                "generated_case_lines": 3 * len(items), "value_trees": n_val,
                                "correspondence_case_lines": acc.n_corr, "correspondence_differences": len(acc.corr),
                                "oracle_failures": sum(len(v) for v in acc.viol.values())}
